@@ -31,6 +31,13 @@ def build_sim(world: World, situation: dict, knobs: dict | None = None, inputs=(
     with warnings.catch_warnings():
         warnings.simplefilter("ignore")
         sim = SimulationBuilder().build_from_entities(tbs, _copy_situation(situation))
+        if knobs.get("groups_first"):
+            # the survey-style builder flow (builder.populations given by hand, declare_*,
+            # join_with_persons, build) hands Simulation whatever mapping it was given: here
+            # the group populations come before the persons
+            from openfisca_core.simulations import Simulation
+
+            sim = Simulation(tbs, dict(reversed(list(sim.populations.items()))))
         apply_knobs(sim, knobs)
         for var, period, values in inputs:
             try:
